@@ -381,7 +381,30 @@ func Run(r *evid.Run) {
 		}
 		add(c2, 1)
 	}
-	r.Rule(fmt.Sprintf("transactions = predicate lists (0..2 of %d predicates: existence / EQUAL / NOT_EQUAL / GREATER / LESS on present, missing, empty-valued keys and on non-empty and empty ranges) x success/failure lists (<= 2 operations per branch from %d operations: single and range reads with limit/count, puts with and without prev_kv, single and range deletes with flags; quick: <= 2 operations in total, thorough: <= 3) x %d pre-states x 4 embedding positions in an apply call {alone, after a put, after a range delete, followed by a put}; executed chained on live real FSMs (state restored by a real batch) and compared with the model: succeeded flag, n-th response for n-th op, state afterwards, applied index; read-only transactions additionally through FSM.Lookup(TxnRequest). A failing case is re-run alone on a fresh FSM. Atomic visibility: an updater applying a transaction (alone / after a put in the same call / with range delete + put) against a reader doing two full-range lookups, scheduling point before every statement, all interleavings up to the preemption bound. Non-trivial: the transaction returned a response or changed state; distinct = distinct (responses, state-after) renderings", len(preds), len(ops), len(preStates)))
+	// branches of exactly three operations (a read, a write and a read again is the shortest list in
+	// which an operation must observe an effect staged after an earlier read of the same branch): every
+	// 3-list as the success branch of a transaction without predicates, and as the failure branch of a
+	// transaction whose predicate is false on every pre-state
+	threeFrom := len(units)
+	{
+		falsePred := -1
+		for i, p := range preds {
+			if predKind(p) == "single-exists" && string(p.Key) == "m" {
+				falsePred = i
+			}
+		}
+		for _, l := range idxLists(len(ops), 3) {
+			if len(l) != 3 {
+				continue
+			}
+			units = append(units, unit{nil, l, nil})
+			if falsePred >= 0 {
+				units = append(units, unit{[]int{falsePred}, nil, l})
+			}
+		}
+	}
+	r.Extra("three_operation_branch_units", len(units)-threeFrom)
+	r.Rule(fmt.Sprintf("transactions = predicate lists (0..2 of %d predicates: existence / EQUAL / NOT_EQUAL / GREATER / LESS on present, missing, empty-valued keys and on non-empty and empty ranges) x success/failure lists (<= 2 operations per branch from %d operations: single and range reads with limit/count, puts with and without prev_kv, single and range deletes with flags; quick: <= 2 operations in total, thorough: <= 3; plus every list of exactly 3 operations as the success branch of a transaction without predicates and as the failure branch of a transaction with a false predicate) x %d pre-states x 4 embedding positions in an apply call {alone, after a put, after a range delete, followed by a put}; executed chained on live real FSMs (state restored by a real batch) and compared with the model: succeeded flag, n-th response for n-th op, state afterwards, applied index; read-only transactions additionally through FSM.Lookup(TxnRequest). A failing case is re-run alone on a fresh FSM. Atomic visibility: an updater applying a transaction (alone / after a put in the same call / with range delete + put) against a reader doing two full-range lookups, scheduling point before every statement, all interleavings up to the preemption bound. Non-trivial: the transaction returned a response or changed state; distinct = distinct (responses, state-after) renderings", len(preds), len(ops), len(preStates)))
 	r.Extra("units", len(units))
 	const chunk = 8
 	nchunks := int64((len(units) + chunk - 1) / chunk)
